@@ -24,13 +24,27 @@ from vlib.core import (enc_csr, enc_list, enc_listlist, enc_bool, enc_ratlist, d
 TOL = '1/1000000000'          # absolute tolerance handed to the Lean spec predicates for float outputs (1e-9)
 TOL_F = 1e-9
 
+
+def wscale(b):
+    """scale of the weights of a matrix: sums of weights (aggregate_) are compared relative to it"""
+    t = float(np.abs(sparse.csr_matrix(b).astype(float).data).sum())
+    return t if t > 0 else 1.0
+
+
+def tol_of(scale):
+    from fractions import Fraction
+    f = Fraction(1, 10 ** 9) * Fraction(scale)
+    return '%d/%d' % (f.numerator, f.denominator)
+
 RULE = ('label vectors: all of {0,1,2}^n for n<=5 in the thorough tier (quick: the first 40 and 120 sampled) + random vectors '
         'with gaps, negatives and tied sizes, up to 120 entries and up to 40 distinct labels (reindex_labels, np.unique, '
         'get_membership, contract of np.argsort); graphs: undirected with self-loops: all on 2 nodes, 20 sampled on 3 nodes '
         '(thorough: all on <= 3 nodes, 300 sampled on 4), digraphs on 3-4 nodes drawn at random, biadjacency shapes up to '
         '4x2 / 3x3 sampled + random up to 7x7, structured random graphs n<=14 (blocks, paths, stars, cliques, two '
         'components, isolated nodes, self-loops, sinks), graphs of 40-150 nodes made of 9-75 equal-size communities '
-        '(labels and pipeline lines only), unit / integer / dyadic / a few arbitrary float weights, bool / int dtype, '
+        '(labels and pipeline lines only), unit / integer / dyadic / a few arbitrary float weights, the same graphs '
+        'rescaled by 1e-9 / 1e-12 / 1e+12, a weakly attached node (edges of weight 1e-9..1e-7 next to weights of order '
+        '1), pairs (graph, 2^k * graph) whose labels_ and probs_ must coincide, bool / int dtype, '
         'unsorted indices, csc / coo / lil / dense containers, refused inputs (empty, all stored entries zero, negative '
         'degrees, unknown modularity, KCenters argument checks, directed on a non-square input) x Louvain, Leiden, '
         'PropagationClustering, KCenters x (modularity, resolution, shuffle_nodes, sort_clusters, return_probs, '
@@ -42,7 +56,7 @@ ASSUMPTIONS = ['np.argsort returns a sorting permutation (checked by contract_ar
                'label vectors produced with sort_clusters are compared as partition + size profile, which loses nothing: '
                'theorem sorted_clusterings_same_profile)',
                'np.unique is the sorted-distinct/inverse/counts function of the model (checked by run lines)',
-               'matrices (probs_, aggregate_) are compared within 1e-9*(1+|x|), whatever the weights',
+               'probs_ are compared within 1e-9 absolute, aggregate_ within 1e-9 relative to the total weight of the input',
                'the Louvain/Leiden kernels, the propagation sweeps, the PageRank scores and np.random are parameters of '
                'the model (their outputs are recorded and replayed), they belong to C06/C13/C04; assumed of them and '
                'evaluated by contract lines on every run: one label per node, refined clusters inside coarse clusters, '
@@ -324,7 +338,7 @@ def secondary_cases(ctx, name, est, b, bip, sig0, desc, key0):
     run = 'c05.secondary %s %s %s %s %s' % (g, enc_bool(bip), enc_list(lab), enc_bool(rp), enc_bool(ra))
     nontriv = k >= 2
     out.append(Case(key0 + ('secondary',), dict(sig0, output='secondary'), run, impl, None, nontriv, desc,
-                    canon='mats'))
+                    canon='mats', tol=wscale(b)))
     nr = b.shape[0]
     # whatever soft membership the estimator exposes must be a distribution over *its* labels
     for name, tr in (('probs_', 0), ('probs_row_', 0), ('probs_col_', 1)):
@@ -337,7 +351,8 @@ def secondary_cases(ctx, name, est, b, bip, sig0, desc, key0):
         lc = lab[nr:] if bip else lab
         out.append(Case(key0 + ('aggregate',), dict(sig0, output='aggregate_'), None, None,
                         'c05.spec_agg %s %s %s %d %s %s' % (g, enc_list(lr), enc_list(lc), k,
-                                                           enc_mat(est.aggregate_.toarray()), TOL), nontriv, desc))
+                                                           enc_mat(est.aggregate_.toarray()), tol_of(wscale(b))),
+                        nontriv, desc))
     return out
 
 
@@ -620,21 +635,23 @@ def _same(c, model, impl, spec_ok):
         if mt[:3] != it[:3]:
             return False
         ma, mb = dec_mat(mt[3]), dec_mat(it[3])
-        return len(ma) == len(mb) and all(len(x) == len(y) and all(abs(u - v) <= TOL_F * (1 + abs(u))
+        sc = c.tol or 1.0
+        return len(ma) == len(mb) and all(len(x) == len(y) and all(abs(u - v) <= TOL_F * (sc + abs(u))
                                                                     for u, v in zip(x, y)) for x, y in zip(ma, mb))
     if c.canon == 'mats' and model.startswith('ok') and impl.startswith('ok'):
         mt, it = model.split(' '), impl.split(' ')
         if len(mt) != len(it):
             return False
-        for a, b in zip(mt[1:], it[1:]):
+        for pos, (a, b) in enumerate(zip(mt[1:], it[1:])):
             if (a == '_') != (b == '_'):
                 return False
             ma, mb = dec_mat(a), dec_mat(b)
             if len(ma) != len(mb) or any(len(x) != len(y) for x, y in zip(ma, mb)):
                 return False
+            sc = (c.tol or 1.0) if pos == 3 else 1.0      # aggregate_: relative to the total weight; probs: absolute
             for x, y in zip(ma, mb):
                 for u, v in zip(x, y):
-                    if abs(u - v) > TOL_F * (1 + abs(u)):
+                    if abs(u - v) > TOL_F * (sc + abs(u)):
                         return False
         return True
     return False
@@ -766,6 +783,28 @@ def graph_stream(ctx):
             a = graphs.unsorted_copy(a, rng)
             name += ':unsorted'
         res.append((name, a))
+    # the same graphs rescaled (tiny and huge weights: 1e-9, 1e-12, 1e+12) and a weakly attached node (edges of
+    # weight 1e-9 .. 1e-7 next to weights of order 1): a node with outgoing weight, however small, has a probs_ row
+    # summing to 1
+    floats = [(nm, a) for nm, a in res if a.dtype == np.float64 and a.nnz > 0]
+    for nm, a in rng.sample(floats, min(len(floats), 9 if quick else 90)):
+        f = rng.choice([1e-9, 1e-12, 1e+12])
+        c = a.copy()
+        c.data = c.data * f
+        res.append(('scaled%g:' % f + nm.split(':')[0], c))
+    squares = [(nm, a) for nm, a in floats if a.shape[0] == a.shape[1] and a.shape[0] >= 3]
+    for nm, a in rng.sample(squares, min(len(squares), 8 if quick else 80)):
+        n = a.shape[0]
+        w = rng.choice([1e-9, 2e-9, 1e-8, 1e-7])
+        targets = rng.sample(range(n), rng.choice([1, 2]))
+        c = sparse.lil_matrix((n + 1, n + 1))
+        c[:n, :n] = a
+        for t in targets:
+            c[n, t] = w
+            c[t, n] = w
+        c = sparse.csr_matrix(c)
+        c.sort_indices()
+        res.append(('weak-node:' + nm.split(':')[0], c))
     return res
 
 
@@ -793,10 +832,62 @@ def leiden_params(rng):
     return p          # tol_aggregation = 0 is drawn again: Leiden.fit stops when a round merges nothing (b2c73765)
 
 
+def scale_pair_case(ctx, cn, b, params, f):
+    """One estimator on `b` and on `f * b` (f a power of two: every float operation of the normalisations is exact):
+    labels_ must be identical and probs_ equal (same seed, same options)."""
+    from sknetwork.clustering import Louvain, Leiden, PropagationClustering
+    cls = {'Louvain': Louvain, 'Leiden': Leiden, 'PropagationClustering': PropagationClustering}[cn]
+    c = b.copy()
+    c.data = c.data * f
+    desc = {'kind': 'scale', 'est': cn, 'params': params, 'graph': gdesc(b), 'factor': f}
+    sig = {'entry': cn, 'output': 'scale invariance'}
+    e1, e2 = cls(**params), cls(**params)
+    r1 = _fit(ctx, lambda: e1.fit(b), sig, desc)
+    r2 = _fit(ctx, lambda: e2.fit(c), dict(sig, output='scale invariance (rescaled graph)'), desc)
+    if r1 != 'ok' or r2 != 'ok':
+        return []
+    l1, l2 = all_labels(e1), all_labels(e2)
+    if l1 != l2:
+        ctx.spec_fail(dict(sig, output='labels_ of the rescaled graph'), desc, {'labels': l1, 'rescaled': l2})
+        return []
+    return [Case((cn, 'scale', enc_csr(b), f, tuple(sorted((k, str(v)) for k, v in params.items()))),
+                 dict(sig, output='probs_ of the rescaled graph'), None, None,
+                 'c05.spec_close %s %s %s' % (enc_mat(e1.probs_.toarray()), enc_mat(e2.probs_.toarray()), TOL),
+                 max(l1) >= 1, desc)]
+
+
+def scale_invariance_cases(ctx, name, b):
+    """The modularity-based estimators normalise the adjacency by its total weight and the secondary outputs
+    normalise rows, so a rescaled graph has the same labels_ and probs_."""
+    rng = ctx.rng
+    out = []
+    f = rng.choice([2.0 ** -30, 2.0 ** -40, 2.0 ** 40])
+    for cn in ('Louvain', 'Leiden', 'PropagationClustering'):
+        if cn == 'PropagationClustering':
+            params = {'sort_clusters': True, 'return_probs': True, 'return_aggregate': False, 'node_order': None}
+        else:
+            params = louvain_params(rng)
+            params.update({'return_probs': True, 'return_aggregate': False})
+        out += scale_pair_case(ctx, cn, b, params, f)
+    ctx.count('graph:scale-pair')
+    return out
+
+
 def estimator_cases(ctx, name, b, reps=1, kcenters=True):
     rng = ctx.rng
     out = []
     square = b.shape[0] == b.shape[1]
+    if name.startswith('scaled') or name.startswith('weak-node'):
+        # the return_probs stream on extreme weights (no KCenters: PageRank on such weights is C04's)
+        for cn in ('Louvain', 'Leiden'):
+            p = louvain_params(rng)
+            p.update({'return_probs': True})
+            out += louvain_cases(ctx, cn, b, p, False)
+        pp = prop_params(rng)
+        pp.update({'return_probs': True})
+        out += propagation_cases(ctx, b, pp, rng.randrange(10 ** 6))
+        ctx.count('graph:' + name.split(':')[0])
+        return out
     def cont():
         return rng.choice(['csr'] * 8 + ['csc', 'coo', 'lil', 'dense'])
     for _ in range(reps):
@@ -866,11 +957,11 @@ def aggregate_graph_cases(ctx, b, variants=2):
         if impl.startswith('ok ') and impl.split(' ')[3] != '-':     # an empty result has nothing to check
             eff_c = lc if 'labels_col' in kw else lr
             t = impl.split(' ')
-            spec = 'c05.spec_aggregate_graph %s %s %s %s %s %s %s' % (g, enc_list(lr), enc_list(eff_c), t[1], t[2], t[3], TOL)
+            spec = 'c05.spec_aggregate_graph %s %s %s %s %s %s %s' % (g, enc_list(lr), enc_list(eff_c), t[1], t[2], t[3], tol_of(wscale(b)))
         out.append(Case(('aggregate_graph', g, tuple(toks)), {'entry': 'aggregate_graph', 'mode': mode,
                                                                'dtype': str(b.dtype)},
                         'c05.aggregate_graph %s %s' % (g, ' '.join(toks)), impl, spec,
-                        impl.startswith('ok') and max(lr) >= 1, desc, canon='agg'))
+                        impl.startswith('ok') and max(lr) >= 1, desc, canon='agg', tol=wscale(b)))
     return out
 
 
@@ -927,6 +1018,8 @@ def cases_of_desc(ctx, d):
         return label_vector_cases(ctx, d['labels'])
     if d.get('kind') == 'aggregate_graph':
         return aggregate_graph_replay(ctx, d)
+    if d.get('kind') == 'scale':
+        return scale_pair_case(ctx, d['est'], gfrom(d['graph']), d['params'], d['factor'])
     b = gfrom(d['graph'])
     if d['est'] in ('Louvain', 'Leiden'):
         return louvain_cases(ctx, d['est'], b, d['params'], d.get('force_bipartite', False), d.get('container', 'csr'))
@@ -954,9 +1047,9 @@ def aggregate_graph_replay(ctx, d):
         lr = kw.get('labels_row', kw.get('labels'))
         lc = kw.get('labels_col', lr)
         t = impl.split(' ')
-        spec = 'c05.spec_aggregate_graph %s %s %s %s %s %s %s' % (g, enc_list(lr), enc_list(lc), t[1], t[2], t[3], TOL)
+        spec = 'c05.spec_aggregate_graph %s %s %s %s %s %s %s' % (g, enc_list(lr), enc_list(lc), t[1], t[2], t[3], tol_of(wscale(b)))
     return [Case(('aggregate_graph', g, tuple(toks)), {'entry': 'aggregate_graph', 'dtype': str(b.dtype)},
-                 'c05.aggregate_graph %s %s' % (g, ' '.join(toks)), impl, spec, True, d, canon='agg')]
+                 'c05.aggregate_graph %s %s' % (g, ' '.join(toks)), impl, spec, True, d, canon='agg', tol=wscale(b))]
 
 
 def big_graph_cases(ctx):
@@ -1006,6 +1099,8 @@ def build_cases(ctx):
     for i, (name, b) in enumerate(gs):
         cases += estimator_cases(ctx, name, b, reps=1 if ctx.quick else 2, kcenters=i in kc_idx)
         cases += aggregate_graph_cases(ctx, b, variants=2 if ctx.quick else 4)
+        if b.dtype == np.float64 and not name.startswith(('scaled', 'weak-node')) and i % (12 if ctx.quick else 6) == 0:
+            cases += scale_invariance_cases(ctx, name, b)
     return cases
 
 
